@@ -881,7 +881,7 @@ class Overlay(Widget, WidgetContainerMixin, WidgetContainerListContentsMixin, ty
         if top < 0 or bottom < 0:
             top_c.pad_trim_top_bottom(min(0, top), min(0, bottom))
 
-        return CanvasOverlay(top_c, bottom_c, left, top)
+        return CanvasOverlay(top_c, bottom_c, max(left, 0), top)
 
     def mouse_event(
         self,
